@@ -254,11 +254,21 @@ def run_go_driver(pkg_rel, harness_dir, prop, seed, tier, out_path, extra_env=No
     if race:
         cmd.append("-race")
     cmd.append("./" + pkg_rel)
+    _clean_repo_test_dirs()
     try:
         r = run(cmd, cwd=REPO, env=env, timeout=timeout + 60)
     except subprocess.TimeoutExpired as e:
+        _clean_repo_test_dirs()
         return False, "TIMEOUT running go driver\n" + (e.stdout or "")
+    _clean_repo_test_dirs()
     return r.returncode == 0, r.stdout
+
+
+def _clean_repo_test_dirs():
+    """the repository's own TestMain (package store) creates scratch stores in
+    its working directory and leaves them behind when the test binary dies"""
+    for n in ("test-store-user", "test-store"):
+        shutil.rmtree(os.path.join(REPO, "store", n), ignore_errors=True)
 
 
 def load_cases(path):
